@@ -336,7 +336,7 @@ fn eval_level(run: &LvRun, sub: Option<V>) -> Result<V, String> {
                 },
                 _ => return Err("not conventional".into()),
             },
-            Node::Many { n, .. } | Node::Some { n, .. } => {
+            Node::Many { n, .. } | Node::Some { n, .. } | Node::Collect { n, .. } => {
                 let mut xs = Vec::new();
                 match &**n {
                     Node::Named(l) => {
@@ -636,6 +636,18 @@ pub fn model_env(root: &Level, argv: &[Vec<u8>], env: &HashMap<String, Vec<u8>>)
         innermost = false;
         if no_items && run.level.info.fallback_to_usage {
             if eval_level(&run, None).is_err() {
+                // whether the command was entered at all depends on the enclosing levels: when
+                // one of them has a problem of its own the outcome is not modelled
+                for outer in stack.iter() {
+                    let dummy = outer.entered.as_ref().map(|(ix, c)| {
+                        V::Alt(*ix, Box::new(V::Cmd(c.name.clone(), Box::new(V::Unit))))
+                    });
+                    if eval_level(outer, dummy).is_err() {
+                        return MOut::Outside(
+                            "usage fallback of a command below a level that fails on its own".into(),
+                        );
+                    }
+                }
                 return MOut::Help {
                     path: path.clone(),
                     exact: false,
